@@ -24,7 +24,7 @@ def describe(tier):
         'bounds': 'alphabet 9; BFS fixpoint; all histories of length <= %d' % DEPTH[tier],
         'assumptions': ['one connection at a time (overlap is C12)', 'transport model: in-memory, per-connection FIFO; validated against loopback TCP by mc/loopback.py',
                         'timer rule: only timers armed with <= 2 s (the cleanup delay) are schedulable events'],
-        'must_be_nonzero': ['accepted-config', 'accepted-upload', 'answered-search', 'refused', 'reconnect-before-cleanup', 'bfs-fixpoint', 'dfs-histories'],
+        'must_be_nonzero': ['accepted-config', 'accepted-upload', 'answered-search', 'refused', 'reconnect-before-cleanup', 'bfs-fixpoint', 'dfs-histories', 'tcp-loopback-replays'],
     }
 
 
@@ -33,7 +33,22 @@ def units(tier, seed):
     for a, b in itertools.product(ALPHABET, repeat=2):
         us.append(('dfs/%s/%s' % (a, b), {'kind': 'dfs', 'prefix': [a, b]}))
     us.append(('dfs/short', {'kind': 'dfs-short'}))
-    return us
+    # conformance of the transport model: explored histories replayed over real loopback TCP (mc/loopback.py)
+    if tier == 'quick':
+        hs = [['config1', 'upload1', 'search'], ['search', 'reconnect-before-cleanup', 'config2', 'config1'],
+              ['config1', 'reconnect-after-cleanup', 'upload2', 'search', 'upload1'], ['foreign-sid', 'unknown-type'],
+              ['config1', 'upload1', 'reconnect-before-cleanup', 'search', 'config2'], ['upload1']]
+        us.append(('tcp/0', {'kind': 'tcp', 'histories': hs[:3]}))
+        us.append(('tcp/1', {'kind': 'tcp', 'histories': hs[3:]}))
+    else:
+        fast = [e for e in ALPHABET if e != 'reconnect-after-cleanup']
+        hs = [list(h) for k in (1, 2, 3) for h in itertools.product(fast, repeat=k)]
+        slow = [list(h) for h in itertools.product(ALPHABET, repeat=2) if 'reconnect-after-cleanup' in h] + \
+               [['config1', 'reconnect-after-cleanup', x] for x in ALPHABET] + [['config1', 'upload1', 'reconnect-after-cleanup', x] for x in ALPHABET]
+        hs += slow
+        for k in range(0, len(hs), 12):
+            us.append(('tcp/%d' % k, {'kind': 'tcp', 'histories': hs[k:k + 12]}))
+    return sorted(us, key=lambda u: not u[0].startswith('tcp'))
 
 
 _fx = {}
@@ -86,11 +101,13 @@ class ServerSystem:
         if not msgs or msgs[0].get('type') != 'init':
             probs.append(('no-init-echo', 'reconnect', 'init echo with state %d' % s.model['state'], 'closed=%s msgs=%r' % (s.conn.closed, [m.get('type') for m in msgs])))
             s.model['open'] = not s.conn.closed
+            s.obs = ('no-init',)
             return probs
         echo = pickle.loads(msgs[0]['content'])
         if not echo.get('ok') or echo.get('state') != s.model['state']:
             probs.append(('init-echo-state', 'reconnect', {'ok': True, 'state': s.model['state']}, echo))
         s.model['open'] = not s.conn.closed
+        s.obs = ('init', echo.get('state'))
         return probs
 
     def _disk(self, s):
@@ -182,6 +199,7 @@ class ServerSystem:
             if after != before and not acked:
                 probs.append(('refused-request-changed-files', '%s/state%d' % (ev, md['state']), sorted(before), sorted(after)))
         md['open'] = not closed
+        s.obs = ('result', result) if (acked and reply_type == 'result') else ('ack',) if acked else ('refused-or-closed',) if (refused_msg or closed) else ('nothing',)
         probs += self._disk_invariant(s, ev)
         return probs
 
@@ -233,6 +251,18 @@ def run_unit(p, tier, seed):
         r.v(PROPERTY, 'server', prob[0], prob[1], {'history': list(hist), 'event': ev, 'engine': p['kind']}, prob[2], prob[3])
         r.outcome(prob[0])
 
+    if p['kind'] == 'tcp':
+        from mc import loopback
+        n, bad = loopback.replay_c10_histories(seed, p['histories'])
+        r.count('tcp-loopback-replays', n)
+        r['evaluations'] += n
+        r['traces'] += n
+        for b in bad:
+            r.v(PROPERTY, 'harness', 'virtual-vs-tcp-disagreement', 'c10-history', {'history': b['history'], 'engine': 'tcp'}, b['virtual'], b['tcp'])
+        r.outcome('tcp-agrees' if not bad else 'tcp-disagrees')
+        r.sample({'tcp_loopback_replay': p['histories'][0]}, limit=1)
+        det.restore()
+        return r
     if p['kind'] == 'bfs':
         st, seen = xstate.bfs(system, on_problem, max_states=5000)
         r['states'] += st.states
@@ -301,6 +331,12 @@ def run_unit(p, tier, seed):
 
 def replay(case, seed):
     r = core.Result()
+    if case.get('engine') == 'tcp':
+        from mc import loopback
+        n, bad = loopback.replay_c10_histories(seed, [case['history']])
+        for b in bad:
+            r.v(PROPERTY, 'harness', 'virtual-vs-tcp-disagreement', 'c10-history', case, b['virtual'], b['tcp'])
+        return r['violations']
     system = ServerSystem(seed)
     s = system.fresh()
     try:
